@@ -412,6 +412,7 @@ gen_job_impl(Rng &r, const Suite &s, const GenOpts &o, bool force, uint32_t flen
         j.iv_kind = (o.special_iv && r.chance(0.35)) ? (uint8_t) r.range(1, IV_NKINDS - 1) : (uint8_t) IV_RANDOM;
         j.tag_len = pick_tag_len(r, s.hash);
         j.inplace = (!o.oop || r.chance(0.5)) ? 1 : 0;
+        j.minimal = r.chance(0.25) ? 1 : 0;
         place_objects(r, j, o);
         const uint32_t cap = o.max_len;
         const uint32_t off = !o.offsets ? 0 : r.chance(0.6) ? 0 : r.chance(0.5) ? r.below(33) : 16 * r.below(5);
